@@ -7,7 +7,7 @@ for id in "$@"; do
   sig=$(echo "$out" | grep -m1 'signature:' | sed 's/^ *//')
   case $rc in 1) echo "CAUGHT $(basename $D .diff) $id $sig";; 0) echo "MISSED $(basename $D .diff) $id";; *) echo "ERROR($rc) $(basename $D .diff) $id: $(echo "$out" | tail -3)";; esac
 done
-git -C /repo checkout -- .
+git -C /repo checkout -- .; git -C /repo clean -fdq src/ tests/ examples/ 2>/dev/null
 # evidence files were rewritten by runs against a mutant: restore the committed ones
 git -C /verif checkout -- evidence 2>/dev/null
 git -C /verif clean -fdq replays/ 2>/dev/null
